@@ -34,7 +34,7 @@ use full_moon::ast::{
     punctuated::Pair,
 };
 use full_moon::ast::{punctuated::Punctuated, span::ContainedSpan};
-use full_moon::tokenizer::{Token, TokenReference, TokenType};
+use full_moon::tokenizer::{StringLiteralQuoteType, Token, TokenReference, TokenType};
 use std::boxed::Box;
 
 pub fn format_compound_op(ctx: &Context, compound_op: &CompoundOp, shape: Shape) -> CompoundOp {
@@ -1055,16 +1055,43 @@ pub fn format_type_field_key(
         TypeFieldKey::Name(token) => TypeFieldKey::Name(
             format_token_reference(ctx, token, shape).update_leading_trivia(leading_trivia),
         ),
-        TypeFieldKey::IndexSignature { brackets, inner } => TypeFieldKey::IndexSignature {
-            brackets: format_contained_span(ctx, brackets, shape)
-                .update_leading_trivia(leading_trivia),
-            inner: format_type_info_internal(
+        TypeFieldKey::IndexSignature { brackets, inner } => {
+            let formatted_inner = format_type_info_internal(
                 ctx,
                 inner,
                 TypeInfoContext::new().mark_within_table_indexer(),
                 shape + 1,
-            ), // 1 = "["
-        },
+            ); // 1 = "["
+
+            // `[ [[string]] ]` is invalid syntax if we remove the whitespace
+            let is_brackets_string = matches!(
+                inner,
+                TypeInfo::String(token) if matches!(
+                    token.token_type(),
+                    TokenType::StringLiteral {
+                        quote_type: StringLiteralQuoteType::Brackets,
+                        ..
+                    }
+                )
+            );
+            let formatted_inner = if is_brackets_string {
+                formatted_inner
+                    .update_leading_trivia(FormatTriviaType::Append(vec![Token::new(
+                        TokenType::spaces(1),
+                    )]))
+                    .update_trailing_trivia(FormatTriviaType::Append(vec![Token::new(
+                        TokenType::spaces(1),
+                    )]))
+            } else {
+                formatted_inner
+            };
+
+            TypeFieldKey::IndexSignature {
+                brackets: format_contained_span(ctx, brackets, shape)
+                    .update_leading_trivia(leading_trivia),
+                inner: formatted_inner,
+            }
+        }
         other => panic!("unknown node {:?}", other),
     }
 }
